@@ -162,7 +162,7 @@ pub fn run_c02(tier: Tier) -> i32 {
     let mut run = Run::new("C02", tier, "exploration");
     let p = ReadModel(Format::Fastq);
     run.replays("model-differential", &p);
-    run.generated("model-differential", &p, tier.pick(120_000, 4_000_000));
+    run.generated("model-differential", &p, tier.pick(300_000, 4_000_000));
     exhaustive(&mut run, Format::Fastq, b"@+\n\rA", if tier == Tier::Quick { 6 } else { 8 });
     let h = super::huge::HugeModel(Format::Fastq);
     run.replays("huge-records", &h);
@@ -184,7 +184,7 @@ pub fn run(tier: Tier) -> i32 {
     let mut run = Run::new("C01", tier, "exploration");
     let p = ReadModel(Format::Fasta);
     run.replays("model-differential", &p);
-    run.generated("model-differential", &p, tier.pick(120_000, 4_000_000));
+    run.generated("model-differential", &p, tier.pick(300_000, 4_000_000));
     exhaustive(&mut run, Format::Fasta, b">\n\rA ", if tier == Tier::Quick { 6 } else { 9 });
     let h = super::huge::HugeModel(Format::Fasta);
     run.replays("huge-records", &h);
